@@ -62,7 +62,7 @@ def repo_hash():
 def harness_hash():
     h = hashlib.sha256()
     for root, dirs, files in os.walk(HARNESS):
-        dirs[:] = sorted(d for d in dirs if d != "hosts_gen")
+        dirs[:] = sorted(d for d in dirs if not d.startswith("hosts_gen"))
         for f in sorted(files):
             p = os.path.join(root, f)
             h.update(p.encode())
@@ -96,6 +96,13 @@ def ensure_built(need_hosts=True):
               and all(os.path.exists(os.path.join(HOSTS, v)) for v in ALL_VARIANTS))
         if ok:
             return want
+        why = [k for k in ("repo", "harness") if have.get(k) != want[k]]
+        if have.get("failed_tools"):
+            why.append("tools that failed to build: %s" % have["failed_tools"])
+        if not os.path.exists(os.path.join(BIN, "pigeon")):
+            why.append("no pigeon binary")
+        why += ["host %s missing" % v for v in ALL_VARIANTS if not os.path.exists(os.path.join(HOSTS, v))][:2]
+        log("rebuild needed:", ", ".join(why) or "no stamp")
         t0 = time.time()
         if os.path.exists(stamp_p):
             os.remove(stamp_p)
